@@ -710,6 +710,10 @@ func propC07Random(col *evid.Collector) func(rt *rapid.T) {
 		if rapid.IntRange(0, 1).Draw(rt, "flip") == 0 && kit.PlantCaptiveFlip(rt, cfg) {
 			planted = append(planted, "provider-made-scoped")
 		}
+		if rapid.IntRange(0, 3).Draw(rt, "late") == 0 && kit.PlantLateCaptive(rt, cfg) {
+			// the scoped provider is registered after the collection was built once without it
+			planted = append(planted, "captive-only-at-the-second-build")
+		}
 		if rapid.IntRange(0, 2).Draw(rt, "sliceNamed") == 0 && kit.PlantSliceNamed(rt, cfg) {
 			planted = append(planted, "scoped-slice-service-named-like-a-group-field")
 		}
